@@ -163,12 +163,15 @@ def gen(tier, seed):
             for i2, d in enumerate(nd.decls):
                 if d.typ == 'func' and rng.random() < 0.6:
                     fpfs.append(['%s:%d' % (nd.loc, i2), nd.loc, i2, d.name, depth])
+        # a refused cfg_setopt() on scalars (unconvertible text): whatever it leaves behind internally, an option without a value still prints commented out
+        refused = ['%s:%d' % (nd.loc, i2) for nd, depth in nodes for i2, d in enumerate(nd.decls)
+                   if d.typ in ('int', 'float', 'bool') and not d.is_list and rng.random() < 0.3]
         # single options printed on their own (cfg_opt_print / cfg_opt_print_indent): the same line as in the full print, at the asked indentation
         cands = ['%s:%d' % (nd.loc, i2) for nd, depth in nodes for i2, d in enumerate(nd.decls) if d.typ in ('int', 'float', 'bool', 'str')]
         optprints = [[ol, rng.choice([None, 0, 1, 5, 33, 70])] for ol in rng.sample(cands, min(3, len(cands)))]
         # a third of the cases: the context already has a filter while the text is parsed (sections are created under it); it is removed or replaced afterwards
         pre = rng.getrandbits(32) | 1 if rng.random() < 0.35 else None
-        yield {'decls': [d.to_json() for d in decls], 'text': text, 'filters': filters, 'pfs': pfs, 'bodies': bodies, 'fpfs': fpfs, 'pre': pre, 'optprints': optprints, 'pfpaths': pfpaths}
+        yield {'decls': [d.to_json() for d in decls], 'text': text, 'filters': filters, 'pfs': pfs, 'bodies': bodies, 'fpfs': fpfs, 'pre': pre, 'optprints': optprints, 'pfpaths': pfpaths, 'refused': refused}
 
 
 def path_of(root, oloc):
@@ -208,6 +211,8 @@ def script(spec):
     if spec.get('pre') is not None:
         lines.append('set_filter 0 6 %d' % spec['pre'])
     lines.append('parse_buf 0 %s' % hx(spec['text']))
+    for ol in spec.get('refused', []):
+        lines.append('setopt 0 %s %s' % (ol, hx('zz!')))
     if spec.get('pre') is not None:
         lines.append('set_filter 0 -1 0')
     lines.append('dump 0')
